@@ -177,21 +177,65 @@ theorem okC_deliverTo (k : Nat) : ∀ (outs : List SOut), NoAfter outs → okC (
         | steal is => simp only [okC]; exact ih hrest
       · simp only [hn, if_false, List.nil_append]; exact ih hrest
 
+/-- the withdrawal requests among the commands -/
+def stealsIn (D : List Cmd) : Nat := (D.filter (fun c => c matches .steal _)).length
+
+/-- the `unscheduled` replies a worker has sent -/
+def repliesOf (s : Worker.State) : Nat := (s.sent.filter (fun e => e matches .unscheduled _)).length
+
+theorem stealsIn_append (a b : List Cmd) : stealsIn (a ++ b) = stealsIn a + stealsIn b := by
+  simp [stealsIn, List.filter_append]
+
+theorem get0_facts {s s' : Worker.State} (h : Worker.get0 s = some s') : s'.torun.Sublist s.torun ∧ s'.sent = s.sent := by
+  unfold Worker.get0 at h
+  split at h
+  · cases h
+  · split at h
+    · cases h
+    · rename_i q r hq
+      simp only [Option.some.injEq] at h; subst h
+      exact ⟨by show r.Sublist s.torun; rw [hq]; exact List.sublist_cons_self _ _, rfl⟩
+
+theorem get1_facts {s s' : Worker.State} (h : Worker.get1 s = some s') : s'.torun.Sublist s.torun ∧ s'.sent = s.sent := by
+  unfold Worker.get1 at h
+  split at h
+  · cases h
+  · split at h
+    · rename_i i q r _ hq
+      simp only [Option.some.injEq] at h; subst h
+      exact ⟨by show r.Sublist s.torun; rw [hq]; exact List.sublist_cons_self _ _, rfl⟩
+    · cases h
+
+theorem finish_facts {s s' : Worker.State} {stop : Bool} (h : Worker.finish s stop = some s') : s'.torun = s.torun ∧ repliesOf s' = repliesOf s := by
+  unfold Worker.finish at h
+  split at h
+  · cases h
+  · split at h
+    · cases h
+    · simp only [Option.some.injEq] at h; subst h
+      exact ⟨rfl, by simp [repliesOf, List.filter_append]⟩
+
+theorem steal_replies (s : Worker.State) (req : List Nat) : repliesOf (Worker.steal s req) = repliesOf s + 1 := by
+  unfold Worker.steal repliesOf
+  simp only
+  split <;> simp [List.filter_append]
+
 /-- the commands taken so far, then the inbox, are a subsequence of what the log addressed to the worker; the queue is a subsequence
     of the entries the taken commands stand for -/
 def QSeq (outs : List SOut) (k : Nat) (w : Wk τ) : Prop :=
-  ∃ D : List Cmd, (D ++ w.inbox).Sublist (deliverTo k outs) ∧ w.w.torun.Sublist (itemsOf w.ids.length D)
+  ∃ D : List Cmd, (D ++ w.inbox).Sublist (deliverTo k outs) ∧ w.w.torun.Sublist (itemsOf w.ids.length D) ∧
+    stealsIn D = repliesOf w.w
 
 def QSeqAll (st : State σ τ) : Prop := ∀ k w, st.wk[k]? = some w → QSeq st.ctl.env.outs k w
 
 theorem qseq_mono {outs : List SOut} {k : Nat} {w : Wk τ} (h : QSeq outs k w) (new : List SOut) : QSeq (outs ++ new) k w := by
-  obtain ⟨D, h1, h2⟩ := h
-  exact ⟨D, by rw [deliverTo_append]; exact h1.trans (List.sublist_append_left _ _), h2⟩
+  obtain ⟨D, h1, h2, h3⟩ := h
+  exact ⟨D, by rw [deliverTo_append]; exact h1.trans (List.sublist_append_left _ _), h2, h3⟩
 
 theorem qseq_congr {outs : List SOut} {k : Nat} {w w' : Wk τ} (h : QSeq outs k w) (h1 : w'.w.torun.Sublist w.w.torun)
-    (h2 : w'.inbox = w.inbox) (h3 : w'.ids = w.ids) : QSeq outs k w' := by
-  obtain ⟨D, a, b⟩ := h
-  exact ⟨D, by rw [h2]; exact a, by rw [h3]; exact h1.trans b⟩
+    (h2 : w'.inbox = w.inbox) (h3 : w'.ids = w.ids) (h4 : repliesOf w'.w = repliesOf w.w) : QSeq outs k w' := by
+  obtain ⟨D, a, b, c⟩ := h
+  exact ⟨D, by rw [h2]; exact a, by rw [h3]; exact h1.trans b, by rw [h4]; exact c⟩
 
 theorem steal_torun (s : Worker.State) (req : List Nat) : (Worker.steal s req).torun.Sublist s.torun := by
   unfold Worker.steal
@@ -202,20 +246,20 @@ theorem steal_torun (s : Worker.State) (req : List Nat) : (Worker.steal s req).t
 
 /-- the main thread only takes entries from the front of the queue -/
 theorem mainStep_torun {k : Nat} {w w' : Wk τ} {p : MainP} (h : mainStep k w p = some w') :
-    w'.w.torun.Sublist w.w.torun ∧ w'.inbox = w.inbox ∧ w'.ids = w.ids := by
+    w'.w.torun.Sublist w.w.torun ∧ w'.inbox = w.inbox ∧ w'.ids = w.ids ∧ repliesOf w'.w = repliesOf w.w := by
   unfold mainStep at h
   split at h
   · cases h
   cases hph : w.phase with
-  | boot => simp only [hph, Option.some.injEq] at h; subst h; exact ⟨List.Sublist.refl _, rfl, rfl⟩
+  | boot => simp only [hph, Option.some.injEq] at h; subst h; exact ⟨List.Sublist.refl _, rfl, rfl, rfl⟩
   | collect =>
     simp only [hph] at h
     cases p with
     | collect errs garbage intr sf0 =>
       simp only at h
       split at h
-      · simp only [Option.some.injEq] at h; subst h; exact ⟨List.Sublist.refl _, rfl, rfl⟩
-      · simp only [Option.some.injEq] at h; subst h; exact ⟨List.Sublist.refl _, rfl, rfl⟩
+      · simp only [Option.some.injEq] at h; subst h; exact ⟨List.Sublist.refl _, rfl, rfl, rfl⟩
+      · simp only [Option.some.injEq] at h; subst h; exact ⟨List.Sublist.refl _, rfl, rfl, rfl⟩
     | none => simp at h
     | reports fs sf ss ex => simp at h
     | complete slow => simp at h
@@ -225,50 +269,29 @@ theorem mainStep_torun {k : Nat} {w w' : Wk τ} {p : MainP} (h : mainStep k w p 
     | init =>
       simp only [hpc, Option.map_eq_some_iff] at h
       obtain ⟨w1, h1, rfl⟩ := h
-      refine ⟨?_, rfl, rfl⟩
-      unfold Worker.get0 at h1
-      split at h1
-      · cases h1
-      · split at h1
-        · cases h1
-        · rename_i q r hq
-          simp only [Option.some.injEq] at h1; subst h1
-          show r.Sublist w.w.torun
-          rw [hq]; exact List.sublist_cons_self _ _
+      obtain ⟨f1, f2⟩ := get0_facts h1
+      exact ⟨f1, rfl, rfl, by simp [repliesOf, f2]⟩
     | haveItem =>
       simp only [hpc, Option.map_eq_some_iff] at h
       obtain ⟨w1, h1, rfl⟩ := h
-      refine ⟨?_, rfl, rfl⟩
-      unfold Worker.get1 at h1
-      split at h1
-      · cases h1
-      · split at h1
-        · rename_i i q r _ hq
-          simp only [Option.some.injEq] at h1; subst h1
-          show r.Sublist w.w.torun
-          rw [hq]; exact List.sublist_cons_self _ _
-        · cases h1
+      obtain ⟨f1, f2⟩ := get1_facts h1
+      exact ⟨f1, rfl, rfl, by simp [repliesOf, f2]⟩
     | running =>
       simp only [hpc] at h
       split at h
-      · simp only [Option.some.injEq] at h; subst h; exact ⟨List.Sublist.refl _, rfl, rfl⟩
-      · simp only [Option.some.injEq] at h; subst h; exact ⟨List.Sublist.refl _, rfl, rfl⟩
+      · simp only [Option.some.injEq] at h; subst h; exact ⟨List.Sublist.refl _, rfl, rfl, rfl⟩
+      · simp only [Option.some.injEq] at h; subst h; exact ⟨List.Sublist.refl _, rfl, rfl, rfl⟩
       · split at h
-        · simp only [Option.some.injEq] at h; subst h; exact ⟨List.Sublist.refl _, rfl, rfl⟩
+        · simp only [Option.some.injEq] at h; subst h; exact ⟨List.Sublist.refl _, rfl, rfl, rfl⟩
         · split at h
           · rename_i i w1 _ hf
             simp only [Option.some.injEq] at h; subst h
-            refine ⟨?_, rfl, rfl⟩
-            unfold Worker.finish at hf
-            split at hf
-            · cases hf
-            · split at hf
-              · cases hf
-              · simp only [Option.some.injEq] at hf; subst hf; exact List.Sublist.refl _
+            obtain ⟨f1, f2⟩ := finish_facts hf
+            exact ⟨by show w1.torun.Sublist w.w.torun; rw [f1]; exact List.Sublist.refl _, rfl, rfl, f2⟩
           · cases h
       · cases h
     | done => simp [hpc] at h
-  | finish => simp only [hph, Option.some.injEq] at h; subst h; exact ⟨List.Sublist.refl _, rfl, rfl⟩
+  | finish => simp only [hph, Option.some.injEq] at h; subst h; exact ⟨List.Sublist.refl _, rfl, rfl, rfl⟩
   | done => simp [hph] at h
 
 theorem deliverStep_qseq {outs : List SOut} {k : Nat} {w w' : Wk τ} (h : deliverStep k w = some w') (hb : QSeq outs k w) : QSeq outs k w' := by
@@ -278,47 +301,55 @@ theorem deliverStep_qseq {outs : List SOut} {k : Nat} {w w' : Wk τ} (h : delive
   split at h
   · cases h
   rename_i c rest hin
-  obtain ⟨D, h1, h2⟩ := hb
+  obtain ⟨D, h1, h2, h3⟩ := hb
   rw [hin] at h1
   have h1' : ((D ++ [c]) ++ rest).Sublist (deliverTo k outs) := by simpa using h1
   cases c with
   | run is =>
     simp only [Option.some.injEq] at h; subst h
-    refine ⟨D ++ [Cmd.run is], h1', ?_⟩
-    show (Worker.putMany w.w is).torun.Sublist _
-    rw [putMany_torun, itemsOf_append]
-    exact List.Sublist.append h2 (by simp [itemsOf])
+    refine ⟨D ++ [Cmd.run is], h1', ?_, ?_⟩
+    · show (Worker.putMany w.w is).torun.Sublist _
+      rw [putMany_torun, itemsOf_append]
+      exact List.Sublist.append h2 (by simp [itemsOf])
+    · show _ = repliesOf (Worker.putMany w.w is)
+      rw [stealsIn_append, h3]; simp [repliesOf, putMany_sent, stealsIn]
   | runAll =>
     simp only [Option.some.injEq] at h; subst h
-    refine ⟨D ++ [Cmd.runAll], h1', ?_⟩
-    show (Worker.putMany w.w (List.range w.ids.length)).torun.Sublist _
-    rw [putMany_torun, itemsOf_append]
-    exact List.Sublist.append h2 (by simp [itemsOf])
+    refine ⟨D ++ [Cmd.runAll], h1', ?_, ?_⟩
+    · show (Worker.putMany w.w (List.range w.ids.length)).torun.Sublist _
+      rw [putMany_torun, itemsOf_append]
+      exact List.Sublist.append h2 (by simp [itemsOf])
+    · show _ = repliesOf (Worker.putMany w.w (List.range w.ids.length))
+      rw [stealsIn_append, h3]; simp [repliesOf, putMany_sent, stealsIn]
   | shutdown =>
     simp only [Option.some.injEq] at h; subst h
-    refine ⟨D ++ [Cmd.shutdown], h1', ?_⟩
-    show (w.w.torun ++ [Worker.QItem.shutdown]).Sublist _
-    rw [itemsOf_append]
-    exact List.Sublist.append h2 (by simp [itemsOf])
+    refine ⟨D ++ [Cmd.shutdown], h1', ?_, ?_⟩
+    · show (w.w.torun ++ [Worker.QItem.shutdown]).Sublist _
+      rw [itemsOf_append]
+      exact List.Sublist.append h2 (by simp [itemsOf])
+    · show _ = repliesOf (Worker.putShutdown w.w)
+      rw [stealsIn_append, h3]; simp [repliesOf, Worker.putShutdown, stealsIn]
   | steal is =>
     simp only [Option.some.injEq] at h; subst h
-    refine ⟨D ++ [Cmd.steal is], h1', ?_⟩
-    show (Worker.steal w.w is).torun.Sublist _
-    rw [itemsOf_append]
-    exact ((steal_torun w.w is).trans h2).trans (List.sublist_append_left _ _)
+    refine ⟨D ++ [Cmd.steal is], h1', ?_, ?_⟩
+    · show (Worker.steal w.w is).torun.Sublist _
+      rw [itemsOf_append]
+      exact ((steal_torun w.w is).trans h2).trans (List.sublist_append_left _ _)
+    · show _ = repliesOf (Worker.steal w.w is)
+      rw [stealsIn_append, h3, steal_replies]; simp [stealsIn]
 
 theorem routed_qseq {outs : List SOut} {k : Nat} {w : Wk τ} (new : List SOut) (hb : QSeq outs k w) : QSeq (outs ++ new) k (routed k new w) := by
   unfold routed
   split
-  · obtain ⟨D, h1, h2⟩ := hb
-    refine ⟨D, ?_, h2⟩
+  · obtain ⟨D, h1, h2, h3⟩ := hb
+    refine ⟨D, ?_, h2, h3⟩
     show (D ++ (w.inbox ++ deliverTo k new)).Sublist _
     rw [deliverTo_append, ← List.append_assoc]
     exact List.Sublist.append h1 (List.Sublist.refl _)
   · exact qseq_mono hb new
 
 theorem qseq_fresh (outs : List SOut) (k : Nat) (ids : List τ) : QSeq outs k ({ ids := ids } : Wk τ) :=
-  ⟨[], by simp, by simp [itemsOf]⟩
+  ⟨[], by simp, by simp [itemsOf], rfl⟩
 
 theorem step_qseq (I : SchedI σ τ) (hA : Appends I) (idsOf : Nat → List τ) {st st' : State σ τ} (a : Step)
     (hb : QSeqAll st) (h : step I idsOf st a = .ok st') : QSeqAll st' := by
@@ -332,14 +363,14 @@ theorem step_qseq (I : SchedI σ τ) (hA : Appends I) (idsOf : Nat → List τ) 
     · cases h
     rename_i w' hm
     simp only [Except.ok.injEq] at h; subst h
-    obtain ⟨m1, m2, m3⟩ := mainStep_torun hm
+    obtain ⟨m1, m2, m3, m4⟩ := mainStep_torun hm
     intro k wk hk
     simp only [setWk] at hk
     by_cases hkj : j = k
     · subst hkj
       rw [List.getElem?_set_self (lt_len_of_get hw)] at hk
       cases hk
-      exact qseq_congr (hb j w hw) m1 m2 m3
+      exact qseq_congr (hb j w hw) m1 m2 m3 m4
     · rw [List.getElem?_set_ne hkj] at hk
       exact hb k wk hk
   | deliver j =>
@@ -385,7 +416,7 @@ theorem step_qseq (I : SchedI σ τ) (hA : Appends I) (idsOf : Nat → List τ) 
       · subst hkj
         rw [List.getElem?_set_self hjl] at h1
         cases h1
-        exact qseq_congr (hb j w hw) (List.Sublist.refl _) rfl rfl
+        exact qseq_congr (hb j w hw) (List.Sublist.refl _) rfl rfl rfl
       · rw [List.getElem?_set_ne hkj] at h1
         exact hb k w1 h1
     split at hk
@@ -417,8 +448,8 @@ theorem step_qseq (I : SchedI σ τ) (hA : Appends I) (idsOf : Nat → List τ) 
       · subst hkj
         rw [List.getElem?_set_self (lt_len_of_get hw)] at hk
         cases hk
-        obtain ⟨D, h1, h2⟩ := hb j w hw
-        refine ⟨D, ?_, h2⟩
+        obtain ⟨D, h1, h2, h3⟩ := hb j w hw
+        refine ⟨D, ?_, h2, h3⟩
         show (D ++ []).Sublist _
         exact (List.Sublist.append (List.Sublist.refl D) (List.nil_sublist w.inbox)).trans h1
       · rw [List.getElem?_set_ne hkj] at hk
@@ -448,7 +479,7 @@ theorem step_qseq (I : SchedI σ τ) (hA : Appends I) (idsOf : Nat → List τ) 
       · subst hkj
         rw [List.getElem?_set_self (lt_len_of_get hw)] at h0
         cases h0
-        exact qseq_congr (hb j w hw) (List.Sublist.refl _) rfl rfl
+        exact qseq_congr (hb j w hw) (List.Sublist.refl _) rfl rfl rfl
       · rw [List.getElem?_set_ne hkj] at h0
         exact hb k w0 h0
     · subst h0
@@ -482,7 +513,7 @@ theorem C16_sys_worker_queue_nothing_behind_shutdown (specs : AList Nat Nat) (s0
     simp only [init, List.getElem?_map, Option.map_eq_some_iff] at hk
     obtain ⟨i, _, rfl⟩ := hk
     exact qseq_fresh _ _ _
-  obtain ⟨D, h1, h2⟩ := run_qseq (Sched.iface specs) (iface_appends specs) idsOf steps h0 h k w hw
+  obtain ⟨D, h1, h2, _⟩ := run_qseq (Sched.iface specs) (iface_appends specs) idsOf steps h0 h k w hw
   have hall : okC (D ++ w.inbox) = true := okC_sublist h1 (okC_deliverTo k _ hna)
   have hD : okC D = true := okC_sublist (List.sublist_append_left _ _) hall
   refine ⟨okQ_sublist h2 (okQ_itemsOf _ hD), okC_sublist (List.sublist_append_right _ _) hall, ?_⟩
@@ -491,6 +522,22 @@ theorem C16_sys_worker_queue_nothing_behind_shutdown (specs : AList Nat Nat) (s0
   obtain ⟨x, y, rfl⟩ := List.append_of_mem hsD
   have : y ++ w.inbox = [] := okC_after (x := x) (by simpa using hall)
   exact (List.append_eq_nil_iff.1 this).2
+
+/-- **Every withdrawal request a worker has taken is answered** (C07; any scheduler whose calls only append to the log).  After any
+    execution, for every worker process: the number of `unscheduled` replies it has sent equals the number of `steal` requests its
+    receiver thread has taken, and those, followed by the requests still waiting in its inbox, are a subsequence in log order of the
+    requests the log addressed to it. -/
+theorem C07_sys_steals_taken_are_answered (I : SchedI σ τ) (hA : Appends I) (s0 : σ) (numnodes maxfail : Nat) (mr : Option Int)
+    (idsOf : Nat → List τ) (steps : List Step) {st : State σ τ} (h : run I idsOf (init I s0 numnodes maxfail mr idsOf) steps = .ok st)
+    (k : Nat) (w : Wk τ) (hw : st.wk[k]? = some w) :
+    ∃ D : List Cmd, (D ++ w.inbox).Sublist (deliverTo k st.ctl.env.outs) ∧ stealsIn D = repliesOf w.w := by
+  have h0 : QSeqAll (init I s0 numnodes maxfail mr idsOf) := by
+    intro k w hk
+    simp only [init, List.getElem?_map, Option.map_eq_some_iff] at hk
+    obtain ⟨i, _, rfl⟩ := hk
+    exact qseq_fresh _ _ _
+  obtain ⟨D, h1, _, h3⟩ := run_qseq I hA idsOf steps h0 h k w hw
+  exact ⟨D, h1, h3⟩
 
 /-- Non-vacuity: in the each-mode execution of `Sys/EachOnce`, two deliveries later, worker 0's queue is the whole collection followed
     by the shutdown marker, and its inbox is empty. -/
